@@ -24,7 +24,7 @@ ASSUMPTIONS = [
     "anchors: SCD(sv1=(EK)25) = -0.41 and SCD(sv30=E25K25) = -27.84 as published by Sawle & Ghosh (2 decimals)",
 ]
 REQUIRED = {"all": ["fewer_than_two_charges", "charged_first_residue", "charged_last_residue", "long_repetitive",
-                    "after_other_queries", "anchors", "longer_than_1000"]}
+                    "after_other_queries", "anchors", "longer_than_1000", "second_calls"]}
 LP = {"quick": 10, "thorough": 12}
 NRANDOM = {"quick": 500, "thorough": 5000}
 HI = {"quick": 300, "thorough": 400}
@@ -86,7 +86,7 @@ def judge(case, rep, S):
     else:
         seq = case["s"]
         pat = M.pattern(seq)
-    obj = S["SP"](seq)
+    obj = SALT.make_object(S, seq, gen.sub_rng(0, "make", seq), rep) if case["k"] == "seq" and len(seq) <= 300 else S["SP"](seq)
     if case.get("pre"):
         r_ = gen.sub_rng(case.get("o", 0), "pre")
         if case["pre"] == 1:
@@ -95,6 +95,10 @@ def judge(case, rep, S):
             SALT.salt(S, obj, seq, r_, rep, cheap=len(seq) > 150)
         rep.cnt("after_other_queries")
     got = obj.get_SCD()
+    again = obj.get_SCD()
+    rep.cnt("second_calls")
+    if not (again == got):
+        rep.viol("scd_not_repeatable", "get_SCD() answered %r and then %r on one object (%s)" % (got, again, seq[:80]))
     want = M.scd_ref(pat)
     ncharged = sum(1 for q in pat if q)
     if ncharged >= 2:
